@@ -203,6 +203,21 @@ func (c *checker) checkC01() {
 				}
 			}
 		}
+		// (e') a lock call that asks for existence only answers what a read at its for-update ts would find
+		for i, r := range h.Ops {
+			if r.Op.Kind != "lock" || r.Err != "" || r.Exists == nil {
+				continue
+			}
+			for _, k := range simkit.SortedKeys(r.Exists) {
+				if _, own := r.Own[k]; own {
+					continue
+				}
+				_, want := c.truth[k].ValueAt(r.ForTS)
+				if r.Exists[k] != want {
+					c.fail(P, "locking-read-mismatch", fmt.Sprintf("txn%d.op%d", id, i), "txn %d op %d LockKeys(%q, check existence, for_update_ts=%d) reported exists=%v, a read at that timestamp finds exists=%v (truth: %s)", id, i, k, r.ForTS, r.Exists[k], want, describeKey(c.truth[k]))
+				}
+			}
+		}
 		// (f) insert
 		if o.committed {
 			for k := range h.InsertChecked {
